@@ -31,11 +31,22 @@ impl Format {
 
     /// Get a newline followed by len spaces, unles self is compressed.
     pub fn get_indent(&self, len: usize) -> &'static str {
-        static INDENT: &str = "\n                                                                                ";
+        // A newline followed by MAX spaces.
+        // Deeper indentation than that is truncated rather than panicking.
+        const MAX: usize = 512;
+        static BYTES: [u8; MAX + 1] = {
+            let mut bytes = [b' '; MAX + 1];
+            bytes[0] = b'\n';
+            bytes
+        };
+        static INDENT: &str = match std::str::from_utf8(&BYTES) {
+            Ok(s) => s,
+            Err(_) => "\n",
+        };
         if self.is_compressed() {
             ""
         } else {
-            &INDENT[..=len]
+            INDENT.get(..=len).unwrap_or(INDENT)
         }
     }
 }
